@@ -144,6 +144,23 @@ Definition check_prestop : rd verdict :=
   first <- getbool ;; ended <- getbool ;; later <- getbool ;; n <- getz ;;
   ret (combine_verdicts [ prop_ok 205 first [n]; prop_ok 208 ended [n]; prop_ok 209 (negb later) [n] ]).
 
+(* the real loop with the real ConstantPacer in virtual time: entries = the instant each hit (by
+   sequence number) reached the transport.  attack_loop_constant_on_schedule: by any instant at most
+   Freq * t / Per hits have started; with a duration at most one hit starts after it *)
+Fixpoint on_schedule (F P i : Z) (ts : list Z) : option (Z * Z) :=
+  match ts with
+  | [] => None
+  | t :: tl => if (0 <=? t) && ((i + 1) * P <=? F * t) then on_schedule F P (i + 1) tl else Some (i, t)
+  end.
+Definition check_realpacer : rd verdict :=
+  F <- getz ;; P <- getz ;; d <- getz ;; ts <- getlist getz ;; n <- getz ;; ended <- getbool ;;
+  ret (combine_verdicts
+    [ match on_schedule F P 0 ts with
+      | None => VOk
+      | Some (i, t) => prop_ok 406 false [F; P; i; t] end;
+      prop_ok 404 (negb (0 <? d) || (Z.of_nat (length (filter (fun t => d <? t) ts)) <=? 1)) [d];
+      prop_ok 407 (ended && (n =? Z.of_nat (length ts))) [n] ]).
+
 Definition getcase_with (mw : Z) : rd acase :=
   iw <- getz ;; d <- getz ;; fl <- getlist getz ;;
   steps <- getlist (getpair getaction getsnap) ;; fin <- getfinal ;;
@@ -152,7 +169,7 @@ Definition getcase_with (mw : Z) : rd acase :=
 Definition check_for (lo hi : Z) : rd verdict :=
   mw <- getz ;;
   if mw =? 0 then check_cli else if mw =? -1 then check_cli2 else
-  if mw =? -2 then check_stopstress else if mw =? -3 then check_optleak else if mw =? -4 then check_cliworkers else if mw =? -5 then check_prestop else
+  if mw =? -2 then check_stopstress else if mw =? -3 then check_optleak else if mw =? -4 then check_cliworkers else if mw =? -5 then check_prestop else if mw =? -6 then check_realpacer else
   cs <- getcase_with mw ;;
   let c := a_cfg cs in
   let k := fold_left (step_acc c) (a_steps cs) acc0 in
